@@ -1,4 +1,5 @@
 PROP = dict(
+    cover_pkgs=["pdu"],
     gen=["layouts"],
     proof_files=["Properties/C01.v", "Proofs/PduRoundtripProofs.v", "Proofs/PduStreamProofs.v", "Proofs/PduMarshalProofs.v"],
     model_files=["Model/Pdu.v", "Model/PduRun.v"],
